@@ -2,7 +2,9 @@ import Tengo.Proofs.JsonScan
 import Tengo.Proofs.JsonGrammar
 /-!
 C18, direction "grammar ⇒ scanner": token-level runs of the control automaton (`conts`) and
-`Json pf b v → accB .beginValue [] b`.
+`JsonD pf maxNestingDepth b v → accB .beginValue [] b` (a value nested at most `n` deep is accepted where
+the parse stack has room for `n` more entries; `accB_deep`: more opening brackets than there is room for
+are rejected).
 -/
 namespace Tengo.Proofs.JsonAccept
 open Tengo.Model.Json Tengo.Proofs.JsonScan Tengo.Proofs.JsonGrammar
@@ -277,12 +279,43 @@ theorem members_start {pf : Bytes → UInt64} {m : Bytes} {es : JMems} (h : Memb
 
 theorem popTo_ne (σ : List PS) (op : Op) : (popTo σ op).step ≠ .error := by cases σ <;> simp [popTo, goTo]
 
-theorem step_open_arr (σ : List PS) (x : Bytes) :
+/-- A push below the limit is the plain transition. -/
+theorem pushTo_ok (st : Step) (p : PS) (σ : List PS) (op : Op) (h : σ.length < maxNestingDepth) :
+    pushTo st p σ op = goTo st (p :: σ) op := by
+  unfold pushTo
+  rw [if_pos (by simp only [List.length_cons]; omega)]
+
+/-- A push at the limit is the error `exceeded max depth`. -/
+theorem pushTo_deep (st : Step) (p : PS) (σ : List PS) (op : Op) (h : maxNestingDepth ≤ σ.length) :
+    pushTo st p σ op = failAt (p :: σ) "exceeded max depth" := by
+  unfold pushTo
+  rw [if_neg (by simp only [List.length_cons]; omega)]
+
+theorem step_open_arr (σ : List PS) (x : Bytes) (h : σ.length < maxNestingDepth) :
     accB .beginValue σ (0x5B :: x) = accB .beginValueOrEmpty (.arr :: σ) x := by
-  simp [accB, delta, stateBeginValue, isSpace, goTo]
-theorem step_open_obj (σ : List PS) (x : Bytes) :
+  simp [accB, delta, stateBeginValue, isSpace, pushTo_ok _ _ _ _ h, goTo]
+theorem step_open_obj (σ : List PS) (x : Bytes) (h : σ.length < maxNestingDepth) :
     accB .beginValue σ (0x7B :: x) = accB .beginStringOrEmpty (.objKey :: σ) x := by
-  simp [accB, delta, stateBeginValue, isSpace, goTo]
+  simp [accB, delta, stateBeginValue, isSpace, pushTo_ok _ _ _ _ h, goTo]
+/-- More opening brackets in a row than the parse stack has room for are never accepted. -/
+theorem accB_deep (k : Nat) : ∀ (st : Step) (σ : List PS) (r : Bytes), (st = .beginValue ∨ st = .beginValueOrEmpty) →
+    σ.length ≤ maxNestingDepth → maxNestingDepth < σ.length + k → accB st σ (List.replicate k 0x5B ++ r) = false := by
+  induction k with
+  | zero => intro st σ r _ h1 h2; omega
+  | succ k ih =>
+    intro st σ r hst h1 h2
+    have hd : delta st σ 0x5B = pushTo .beginValueOrEmpty .arr σ .beginArray := by
+      rcases hst with rfl | rfl <;> simp [delta, stateBeginValueOrEmpty, stateBeginValue, isSpace]
+    simp only [List.replicate_succ, List.cons_append, accB, hd]
+    by_cases hlt : σ.length < maxNestingDepth
+    · rw [pushTo_ok _ _ _ _ hlt]
+      simp only [goTo]
+      rw [ih .beginValueOrEmpty (.arr :: σ) r (.inr rfl) (by simp only [List.length_cons]; omega)
+        (by simp only [List.length_cons]; omega)]
+      simp
+    · rw [pushTo_deep _ _ _ _ (by omega)]
+      simp [failAt]
+
 theorem step_close_arr_empty (σ : List PS) (r : Bytes) :
     accB .beginValueOrEmpty (.arr :: σ) (0x5D :: r) = accB .endValue σ r := by
   rw [← accB_popTo σ .endArray r]
@@ -333,12 +366,16 @@ theorem accB_key_orEmpty (σ : List PS) (m : Bytes) (h : ∃ w x, WS w ∧ m = w
 
 /-! ### grammar ⇒ acceptance -/
 
-def AccVal (t : Bytes) : Prop :=
-  ∀ (σ : List PS) (r : Bytes), FollowOK r → accB .beginValue σ (t ++ r) = accB .endValue σ r
-def AccElems (e : Bytes) : Prop :=
-  ∀ (σ : List PS) (r : Bytes), accB .beginValue (.arr :: σ) (e ++ 0x5D :: r) = accB .endValue σ r
-def AccMembers (m : Bytes) : Prop :=
-  ∀ (σ : List PS) (r : Bytes), accB .beginString (.objKey :: σ) (m ++ 0x7D :: r) = accB .endValue σ r
+/-- A value nested at most `n` deep is accepted wherever the parse stack leaves room for `n` more levels. -/
+def AccVal (n : Nat) (t : Bytes) : Prop :=
+  ∀ (σ : List PS) (r : Bytes), σ.length + n ≤ maxNestingDepth → FollowOK r →
+    accB .beginValue σ (t ++ r) = accB .endValue σ r
+def AccElems (n : Nat) (e : Bytes) : Prop :=
+  ∀ (σ : List PS) (r : Bytes), σ.length + 1 + n ≤ maxNestingDepth →
+    accB .beginValue (.arr :: σ) (e ++ 0x5D :: r) = accB .endValue σ r
+def AccMembers (n : Nat) (m : Bytes) : Prop :=
+  ∀ (σ : List PS) (r : Bytes), σ.length + 1 + n ≤ maxNestingDepth →
+    accB .beginString (.objKey :: σ) (m ++ 0x7D :: r) = accB .endValue σ r
 
 theorem acc_lit (c0 : UInt8) (st1 : Step) (tl : Bytes) (σ : List PS) (r : Bytes)
     (h : stateBeginValue σ c0 = goTo st1 σ .beginLiteral) (h1 : st1 ≠ .error) (h2 : conts st1 σ tl = some .endValue) :
@@ -347,8 +384,8 @@ theorem acc_lit (c0 : UInt8) (st1 : Step) (tl : Bytes) (σ : List PS) (r : Bytes
   rw [accB_first σ c0 st1 _ h h1]
   exact accB_conts σ tl r st1 .endValue h2
 
-theorem acc_num {t : Bytes} (hn : NumTok t) : AccVal t := by
-  intro σ r hr
+theorem acc_num {n : Nat} {t : Bytes} (hn : NumTok t) : AccVal n t := by
+  intro σ r _ hr
   cases hn with
   | neg hrest =>
     obtain ⟨st', h1, h2⟩ := conts_numRest σ hrest
@@ -376,67 +413,72 @@ theorem acc_num {t : Bytes} (hn : NumTok t) : AccVal t := by
       accB_conts σ _ r _ _ h1', accB_final st' σ h2 r hr]
 
 theorem acc_all (pf : Bytes → UInt64) :
-    (∀ {t v}, Val pf t v → AccVal t) ∧ (∀ {e xs}, Elems pf e xs → AccElems e) ∧ (∀ {m es}, Members pf m es → AccMembers m) := by
-  apply grammar_induction (P1 := fun t _ => AccVal t) (P2 := fun e _ => AccElems e) (P3 := fun m _ => AccMembers m)
-  · intro σ r _
+    (∀ {n t v}, ValD pf n t v → AccVal n t) ∧ (∀ {n e xs}, ElemsD pf n e xs → AccElems n e) ∧
+    (∀ {n m es}, MembersD pf n m es → AccMembers n m) := by
+  apply grammarD_induction (P1 := fun n t _ => AccVal n t) (P2 := fun n e _ => AccElems n e) (P3 := fun n m _ => AccMembers n m)
+  · intro _ σ r _ _
     exact acc_lit 0x6E .n [0x75, 0x6C, 0x6C] σ r (by simp [stateBeginValue, isSpace]) (by decide)
       (by simp [conts, delta, stateLit, goTo])
-  · intro σ r _
+  · intro _ σ r _ _
     exact acc_lit 0x74 .t [0x72, 0x75, 0x65] σ r (by simp [stateBeginValue, isSpace]) (by decide)
       (by simp [conts, delta, stateLit, goTo])
-  · intro σ r _
+  · intro _ σ r _ _
     exact acc_lit 0x66 .f [0x61, 0x6C, 0x73, 0x65] σ r (by simp [stateBeginValue, isSpace]) (by decide)
       (by simp [conts, delta, stateLit, goTo])
-  · intro t hn; exact acc_num hn
-  · intro b hb σ r _
+  · intro _ t hn; exact acc_num hn
+  · intro _ b hb σ r _ _
     simp only [quote, List.cons_append, List.append_assoc, List.nil_append]
     rw [accB_first σ 0x22 .inString _ (by simp [stateBeginValue, isSpace]) (by decide), accB_str σ hb]
-  · intro w hw σ r _
+  · intro n w hw σ r hd _
     simp only [List.cons_append, List.append_assoc, List.nil_append]
-    rw [step_open_arr, accB_ws _ _ (loop_beginValueOrEmpty _) _ _ hw, step_close_arr_empty]
-  · intro e xs he ih σ r _
+    rw [step_open_arr _ _ (by omega), accB_ws _ _ (loop_beginValueOrEmpty _) _ _ hw, step_close_arr_empty]
+  · intro n e xs he ih σ r hd _
     simp only [List.cons_append, List.append_assoc, List.nil_append]
-    rw [step_open_arr, accB_orEmpty' _ e (elems_start he)]
-    exact ih σ r
-  · intro w hw σ r _
+    rw [step_open_arr _ _ (by omega), accB_orEmpty' _ e (elems_start ((toVal_all pf).2.1 he))]
+    exact ih σ r (by omega)
+  · intro n w hw σ r hd _
     simp only [List.cons_append, List.append_assoc, List.nil_append]
-    rw [step_open_obj, accB_ws _ _ (loop_beginStringOrEmpty _) _ _ hw, step_close_obj_empty]
-  · intro m es hm ih σ r _
+    rw [step_open_obj _ _ (by omega), accB_ws _ _ (loop_beginStringOrEmpty _) _ _ hw, step_close_obj_empty]
+  · intro n m es hm ih σ r hd _
     simp only [List.cons_append, List.append_assoc, List.nil_append]
-    rw [step_open_obj, accB_key_orEmpty _ m (members_start hm)]
-    exact ih σ r
-  · intro w1 t w2 v hw1 _ hw2 ih σ r
+    rw [step_open_obj _ _ (by omega), accB_key_orEmpty _ m (members_start ((toVal_all pf).2.2 hm))]
+    exact ih σ r (by omega)
+  · intro n w1 t w2 v hw1 _ hw2 ih σ r hd
     simp only [List.append_assoc]
-    rw [accB_ws _ _ (loop_beginValue _) _ _ hw1, ih (.arr :: σ) _ (followOK_ws_cons w2 hw2 _ _ follow_punct.1),
+    rw [accB_ws _ _ (loop_beginValue _) _ _ hw1,
+      ih (.arr :: σ) _ (by simp only [List.length_cons]; omega) (followOK_ws_cons w2 hw2 _ _ follow_punct.1),
       accB_ws _ _ (loop_endValue _ _) _ _ hw2, step_close_arr]
-  · intro w1 t w2 v e xs hw1 _ hw2 _ ih ihe σ r
+  · intro n w1 t w2 v e xs hw1 _ hw2 _ ih ihe σ r hd
     simp only [List.append_assoc, List.cons_append]
-    rw [accB_ws _ _ (loop_beginValue _) _ _ hw1, ih (.arr :: σ) _ (followOK_ws_cons w2 hw2 _ _ follow_punct.2.2.1),
+    rw [accB_ws _ _ (loop_beginValue _) _ _ hw1,
+      ih (.arr :: σ) _ (by simp only [List.length_cons]; omega) (followOK_ws_cons w2 hw2 _ _ follow_punct.2.2.1),
       accB_ws _ _ (loop_endValue _ _) _ _ hw2, step_comma_arr]
-    exact ihe σ r
-  · intro w1 k w2 w3 t w4 v hw1 hk hw2 hw3 _ hw4 ih σ r
+    exact ihe σ r hd
+  · intro n w1 k w2 w3 t w4 v hw1 hk hw2 hw3 _ hw4 ih σ r hd
     simp only [List.append_assoc, quote, List.cons_append, List.nil_append]
     rw [accB_ws _ _ (loop_beginString _) _ _ hw1, step_quote_key, accB_str _ hk, accB_ws _ _ (loop_endValue _ _) _ _ hw2,
       step_colon, accB_ws _ _ (loop_beginValue _) _ _ hw3,
-      ih (.objVal :: σ) _ (followOK_ws_cons w4 hw4 _ _ follow_punct.2.1),
+      ih (.objVal :: σ) _ (by simp only [List.length_cons]; omega) (followOK_ws_cons w4 hw4 _ _ follow_punct.2.1),
       accB_ws _ _ (loop_endValue _ _) _ _ hw4, step_close_obj]
-  · intro w1 k w2 w3 t w4 v m es hw1 hk hw2 hw3 _ hw4 _ ih ihm σ r
+  · intro n w1 k w2 w3 t w4 v m es hw1 hk hw2 hw3 _ hw4 _ ih ihm σ r hd
     simp only [List.append_assoc, quote, List.cons_append, List.nil_append]
     rw [accB_ws _ _ (loop_beginString _) _ _ hw1, step_quote_key, accB_str _ hk, accB_ws _ _ (loop_endValue _ _) _ _ hw2,
       step_colon, accB_ws _ _ (loop_beginValue _) _ _ hw3,
-      ih (.objVal :: σ) _ (followOK_ws_cons w4 hw4 _ _ follow_punct.2.2.1),
+      ih (.objVal :: σ) _ (by simp only [List.length_cons]; omega) (followOK_ws_cons w4 hw4 _ _ follow_punct.2.2.1),
       accB_ws _ _ (loop_endValue _ _) _ _ hw4, step_comma_obj]
-    exact ihm σ r
+    exact ihm σ r hd
 
-theorem acc_val {pf : Bytes → UInt64} {t : Bytes} {v : J} (h : Val pf t v) : AccVal t := (acc_all pf).1 h
+theorem acc_val {pf : Bytes → UInt64} {n : Nat} {t : Bytes} {v : J} (h : ValD pf n t v) : AccVal n t := (acc_all pf).1 h
 
-/-- **Grammar ⇒ scanner.** Every JSON text is accepted by the control automaton. -/
-theorem json_accB {pf : Bytes → UInt64} {b : Bytes} {v : J} (h : Json pf b v) : accB .beginValue [] b = true := by
+/-- **Grammar ⇒ scanner.** Every JSON text nested at most `maxNestingDepth` deep is accepted by the
+control automaton. -/
+theorem json_accB {pf : Bytes → UInt64} {b : Bytes} {v : J} (h : JsonD pf maxNestingDepth b v) :
+    accB .beginValue [] b = true := by
   obtain ⟨w1, t, w2, rfl, hw1, hv, hw2⟩ := h
   have hf : FollowOK w2 := by
     intro c r' e; subst e; exact follow_space c (hw2 c (by simp))
   simp only [List.append_assoc]
-  rw [accB_ws _ _ (loop_beginValue _) _ _ hw1, acc_val hv [] w2 hf]
+  rw [accB_ws _ _ (loop_beginValue _) _ _ hw1, acc_val hv [] w2 (by simp) hf]
   cases w2 with
   | nil => simp [accB, eofOK, delta, stateEndValue, stateEndTop, isSpace, goTo]
   | cons c w =>
